@@ -379,6 +379,9 @@ func checkGenX(c genCase, exclude bool) error {
 		var firstPlugin []byte
 		for i := 0; i < pluginRuns; i++ {
 			so, se, err := gencode.RunPlugin(bin, rb)
+			if !gencode.Started(err) {
+				return fmt.Errorf("harness: plugin process could not be run: %v", err)
+			}
 			if first.newErr != "" {
 				if err == nil {
 					return fmt.Errorf("plugin process run %d succeeded (%d bytes) but in-process Options.New fails: %s", i+1, len(so), first.newErr)
@@ -963,7 +966,7 @@ func TestSchemaRequests(t *testing.T) {
 		Check:      checkGen,
 		NonTrivial: func(c genCase) bool { return classify(c).nontrivial },
 		Classes:    func(c genCase) []string { return classify(c).classes },
-		Quick:      120, Thorough: 400,
+		Quick:      120, Thorough: 250,
 	})
 }
 
@@ -975,6 +978,6 @@ func TestLinkedRequests(t *testing.T) {
 		Check:      checkGen,
 		NonTrivial: func(c genCase) bool { return classify(c).nontrivial },
 		Classes:    func(c genCase) []string { return classify(c).classes },
-		Quick:      10, Thorough: 40,
+		Quick:      10, Thorough: 15,
 	})
 }
